@@ -188,6 +188,7 @@ func c19Binding(limit, used uint64) bool {
 func c19Judge(t *rapid.T, st *vstats.Collector, q *c19Query, ex c19Expect,
 	res c19Result, phase string, onion bool) (c19Facts, bool) {
 
+	session := strings.HasPrefix(phase, "session")
 	labels := []string{"phase:" + phase}
 	add := func(l string) { labels = append(labels, l) }
 	fp := vstats.FP(q.m.String(), q.String(), phase)
@@ -239,9 +240,14 @@ func c19Judge(t *rapid.T, st *vstats.Collector, q *c19Query, ex c19Expect,
 				c19IsKnown(c19KnownBlindedMax):
 
 				st.Known(c19KnownBlindedMax)
-			case v.Rule == "onion_size" && f.BlindedLen > 0 &&
-				f.Payload <= sphinx.MaxRoutingPayloadSize+
-					c19BlindedUnderestimate(ex.TotalAmt) &&
+			// findPath misses total_amount_msat (bounded excess);
+			// a session sizes the final hop as a clear hop
+			// (unbounded). Only recipients that are their own
+			// introduction node are affected.
+			case v.Rule == "onion_size" && f.BlindedLen == 1 &&
+				(session || f.Payload <=
+					sphinx.MaxRoutingPayloadSize+
+						c19BlindedUnderestimate(ex.TotalAmt)) &&
 				c19IsKnown(c19KnownBlindedLen):
 
 				st.Known(c19KnownBlindedLen)
